@@ -623,7 +623,7 @@ def batch_cutoffs(ctx, specs, mode):
         cs |= set(cutoffs_for(ctx, s, mode))
     head = [c for c in cs if c is None or c == 0]
     rest = sorted(c for c in cs if c is not None and c != 0)
-    pick = ctx.rng.sample(rest, min(len(rest), ctx.n(3, 8)))
+    pick = ctx.rng.sample(rest, min(len(rest), ctx.n(3, 6)))
     if ctx.rng.random() < 0.3:
         pick += [ctx.rng.choice(head)]
     return pick
@@ -693,7 +693,7 @@ def batched_stream(ctx):
         cases.append((len(cases) + 1, expr))
         info[len(cases)] = meta
 
-    for _ in range(ctx.n(16, 400)):
+    for _ in range(ctx.n(16, 120)):
         specs, bshape, scales = batch_spectra(rng)
         d, nb = len(specs[0]), len(specs)
         sarr = np.array([[float(v) for v in s] for s in specs])
